@@ -632,7 +632,7 @@ def task_file(rel, tier, part=0, nparts=1):
         if r != 'sat': return 'unreachable'
         return 'checked' if counters['reached'] else 'nothing-reached'
 
-    res = sym.explore(h, sym.Ctx(timeout_ms=30000), max_paths=6, profile_repo=(tier == 'quick' and part == 0 and len(raw) < 2500))
+    res = sym.explore(h, sym.Ctx(timeout_ms=10000), max_paths=3, profile_repo=(tier == 'quick' and part == 0 and len(raw) < 2500))
     extra = dict(distinct_obligations=len(distinct), simulator=P['simulator'], calls=counters['calls'], items=counters['items'],
                  nonterminating_calls=counters['nonterm'], symbolic_lines=len(symlines), unattributed_cells=counters['unattributed'],
                  result_sets=nsets, tables=P['tablenames'])
